@@ -146,6 +146,13 @@ def run_check(mod, tier, seed, budget=None, selftest=False):
     vac = []
     conf = None
     uses_kernel = getattr(mod, 'USES_KERNEL', 'explorer' in kinds)
+    live = None
+    live_names = getattr(mod, 'LIVE', {}).get(tier)
+    if live_names and not os.environ.get('VERIF_SKIP_CONFORMANCE'):
+        import subprocess
+        live = subprocess.Popen([sys.executable, os.path.join(R.VERIF, 'vt', 'livereplay.py')] + list(live_names),
+                                stdout=subprocess.PIPE, stderr=subprocess.DEVNULL,
+                                env=dict(os.environ, PYTHONPATH=R.VERIF, PYTHONHASHSEED='0'), cwd='/')
     if uses_kernel and not os.environ.get('VERIF_SKIP_CONFORMANCE'):
         import subprocess
         cmd = [sys.executable, os.path.join(R.VERIF, 'vt', 'live.py')] + (['--pairs'] if tier == 'thorough' else [])
@@ -224,6 +231,26 @@ def run_check(mod, tier, seed, budget=None, selftest=False):
             lines.append('VIOLATION property=%s replay=%s' % (prop_id, path))
             lines.append('  harness: the environment model disagrees with the real kernel/psutil: %s'
                          % json.dumps(cres.get('mismatches'))[:600])
+    if live is not None:
+        try:
+            out, err = live.communicate(timeout=600)
+            lres = json.loads(out.decode() or '{}')
+        except Exception as e:
+            live.kill()
+            lres = {'histories': 0, 'mismatches': [{'error': repr(e)}]}
+        cov['live_replays'] = lres.get('histories', 0)
+        cov['live_replay_mismatches'] = len(lres.get('mismatches', []))
+        cov['live_replay_note'] = ('histories run on a real circusd process (real zmq, epoll, clock, worker processes) and on the '
+                                   'simulation; event sequences per phase, replies and final state must be equal')
+        cov['live_replay_samples'] = lres.get('samples', [])[:1]
+        if lres.get('mismatches') or not lres.get('histories'):
+            new += 1
+            path = F.write_replay(prop_id, {'clause': 'HARNESS.live_replay_mismatch', 'where': 'vt/livereplay.py',
+                                            'scenario': {'name': 'live', 'params': {}}, 'choices': [],
+                                            'detail': json.dumps(lres.get('mismatches'))[:4000]})
+            lines.append('VIOLATION property=%s replay=%s' % (prop_id, path))
+            lines.append('  harness: the simulation disagrees with a real circusd on a replayed history: %s'
+                         % json.dumps(lres.get('mismatches'))[:800])
     if hasattr(mod, 'bounds'):
         cov['bounds'] = mod.bounds(tier)
     cov['known_findings_hit'] = sorted(known_total)
